@@ -85,12 +85,15 @@ ImportExisting(x, o, how, FC) ==
   LET into == ImportInto(o, x.kind, {1}) IN
   CASE how = "sync" ->
          \* import into a temporary project, then project.sync(tmp, recursive=True, check_schema=True): merges into the existing
-         \* job, but (as the code, calibrated - sync belongs to C13..C15) refuses with a schema conflict unless both projects
-         \* hold the same state points, i.e. unless the existing job is all that is imported
-         IF o.impraise THEN [exit |-> 1, msg |-> "error", n |-> 0, altered |-> FALSE]
-         ELSE IF o.nids = 0 THEN [exit |-> 0, msg |-> "nothing", n |-> 0, altered |-> FALSE]
-         ELSE IF o.nids = 1 /\ o.ident[1] THEN [exit |-> 0, msg |-> "imported", n |-> 1, altered |-> FALSE]
-         ELSE [exit |-> IF FC.c1 THEN 1 ELSE 0, msg |-> "failed", n |-> 0, altered |-> FALSE]                 \* DEVIATION C1
+         \* job, but (as the code, calibrated - sync belongs to C13..C15) refuses with a schema conflict when the state point
+         \* keys of the imported jobs are not the keys of the jobs the project has (here: of the one existing job)
+         LET Js == Selected(x)
+             got == {i \in 1..Len(Js) : o.ident[i]}
+             keys(S) == UNION {{e[1] : e \in Flat(Js[i].sp, <<>>)} : i \in S}
+         IN IF o.impraise THEN [exit |-> 1, msg |-> "error", n |-> 0, altered |-> FALSE]
+            ELSE IF o.nids = 0 THEN [exit |-> 0, msg |-> "nothing", n |-> 0, altered |-> FALSE]
+            ELSE IF keys(got) = keys({1}) /\ ~o.stray THEN [exit |-> 0, msg |-> "imported", n |-> o.nids, altered |-> FALSE]
+            ELSE [exit |-> IF FC.c1 THEN 1 ELSE 0, msg |-> "failed", n |-> 0, altered |-> FALSE]              \* DEVIATION C1
     [] how = "move" /\ ~FC.c2 /\ into.exists ->
          [exit |-> 0, msg |-> "imported", n |-> o.nids, altered |-> TRUE]                                   \* DEVIATION C2
     [] OTHER ->
